@@ -1353,7 +1353,7 @@ class NestedSession(Session):
     for src, got, want in checks:
       if got != want:
         self.rec.case(
-            f'{cid}/host-view', key, False,
+            cid, key, False,
             f'host {self.host.name}: after {op.src} on {before!r}: {src} is {got}, reference {want}',
             _witness(self._ctor(), self.base, self.prefix + [op.src], None,
                      f'got = repr({src})\nassert got == {want!r}, got'))
@@ -1426,9 +1426,11 @@ def _rebind_call(recv, parts, mode):
   return f'{ctx}_ = {recv}.rebind({body}{kw})'
 
 
-def _anc_list_cid(label, ups):
+def _anc_list_cid(label, ups, sib=None):
   def f(r):
     n = len(r)
+    if sib == 'del':      # an element of the sibling list is deleted in the same call
+      return f'nested-list.anc-rebind/{label}/with-delete'
     if len(ups) > 1 and sum(1 for i, _, _ in ups if i >= n) >= 2:
       return 'list.rebind-multi/several-past-end'     # (same input class as at top level)
     if any(i < -n for i, _, _ in ups):
@@ -1460,7 +1462,7 @@ def anc_list_op(recv, tpre, spre, ups, mode, sib=None):
   else:
     def ref(r):
       _ref_rebind(ups)(r)
-  op = Op(_rebind_call(recv, parts, mode), _anc_list_cid(mode[0], ups), ref=ref, alts=_alts_rebind(ups))
+  op = Op(_rebind_call(recv, parts, mode), _anc_list_cid(mode[0], ups, sib), ref=ref, alts=_alts_rebind(ups))
   op.sib_fn = sib_fn
   return op
 
@@ -1480,6 +1482,8 @@ def anc_dict_op(recv, tpre, spre, ups, mode, sib=None, recv_kind='Dict'):
     def ref(r):
       _ref_dict_rebind(ups)(r)
   def cid(r):
+    if sib == 'del':      # the sibling is a nested *list*: same input class as for a list target
+      return f'nested-list.anc-rebind/{mode[0]}/with-delete'
     new = sum(1 for k, v in ups if v is not M and k not in r)
     if new >= 2 and recv_kind == 'List' and mode[1] is not None:
       # several new keys in one call, the call being made on a list (which
